@@ -6,6 +6,7 @@ import (
 	"go/types"
 	"sort"
 	"strings"
+	"time"
 
 	"golang.org/x/tools/go/ssa"
 )
@@ -13,6 +14,7 @@ import (
 // verifyFunc generates the obligations of one function against its contract.
 func (v *Verifier) verifyFunc(fn *ssa.Function, c *Contract) (err error) {
 	v.top, v.topC = fn, c
+	v.fnStart = time.Now()
 	v.paths = 0
 	v.returned = false
 	key := funcKey(fn)
